@@ -258,6 +258,16 @@ Uci(m) == SqTxt(m.from) \o SqTxt(m.to) \o Lower(m.promo)
 LegalTexts(pos) == { Uci(m) : m \in Legal(pos) }
 PseudoTexts(pos) == { Uci(m) : m \in Pseudo(pos) }
 
+\* number of legal move paths of length d (perft)
+RECURSIVE Perft(_, _)
+Perft(p, d) ==
+  IF d = 0 THEN 1
+  ELSE LET lg == Legal(p) IN
+       IF d = 1 THEN Cardinality(lg)
+       ELSE LET F[S \in SUBSET lg] == IF S = {} THEN 0
+                                      ELSE LET m == CHOOSE m \in S : TRUE IN Perft(Apply(p, m), d - 1) + F[S \ {m}]
+            IN F[lg]
+
 EmptyBoard == [s \in Sq |-> Empty]
 StartBoard ==
   [s \in Sq |->
